@@ -38,6 +38,10 @@ var c07Mutants = []Mutant{
 		Edits: []Edit{{File: "transport/transport.go", Old: "\tif !force {\n\t\tt.implLock.Lock()\n\t\tdefer t.implLock.Unlock()\n\t}\n", New: "\t_ = force\n\n\tt.implLock.Lock()\n\tdefer t.implLock.Unlock()\n"}}},
 	{ID: "C07-standard-close-early-return", Desc: "Standard.Close returns the session close error before closing the client", Rule: "C07/impl-close-all",
 		Edits: []Edit{{File: "transport/standard.go", Old: "\t\tif err != nil && !errors.Is(err, io.EOF) {\n\t\t\tsessionErr = err\n\t\t}", New: "\t\tif err != nil && !errors.Is(err, io.EOF) {\n\t\t\treturn err\n\t\t}"}}},
+	{ID: "C07-eof-before-done-poll", Desc: "reader returns on EOF before acknowledging the closer", Rule: "C07/K6",
+		Edits: []Edit{{File: "channel/read.go", Old: "\t\tif err != nil {\n\t\t\tselect {\n\t\t\tcase <-c.done:", New: "\t\tif err != nil {\n\t\t\tif errors.Is(err, io.EOF) {\n\t\t\t\treturn\n\t\t\t}\n\n\t\t\tselect {\n\t\t\tcase <-c.done:"}}},
+	{ID: "C07-close-nils-message-store", Desc: "NETCONF Close drops the reply store before stopping its reader", Rule: "C07/M",
+		Edits: []Edit{{File: "driver/netconf/driver.go", Old: "\td.done <- true\n\n\terr := d.Channel.Close()", New: "\td.messagesLock.Lock()\n\td.messages = nil\n\td.messagesLock.Unlock()\n\n\td.done <- true\n\n\terr := d.Channel.Close()"}}},
 	{ID: "C07-close-skips-transport", Desc: "Channel.Close returns early when the reader already exited", Rule: "C07/close-reaches-transport",
 		Edits: []Edit{{File: "channel/channel.go", Old: "\t} else {\n\t\tclose(ch)\n\t}\n", New: "\t} else {\n\t\tclose(ch)\n\n\t\treturn nil\n\t}\n"}}},
 	{ID: "C07-new-shared-counter", Desc: "reader counts bytes in a plain field read by an API method", Rule: "C07/L",
@@ -188,8 +192,9 @@ func runC07(c *Ctx, r *Report) {
 	r.Rule("C07/K3", "no blocking send/receive on an unbuffered struct-field channel on the API thread outside a select with an alternative", 1)
 	r.Rule("C07/K4", "a long-lived reader goroutine sends on an unbuffered struct-field channel only inside a select that also waits on its done channel", 2)
 	r.Rule("C07/K5", "a worker's send on a local unbuffered channel is always received: the spawner receives unconditionally and as often as the worker sends, or the send is in a select with an alternative", 6)
-	r.Rule("C07/K6", "the channel reader polls done after a failed transport read and before forwarding the error", 1)
+	r.Rule("C07/K6", "the channel reader polls done after a failed transport read, before forwarding the error and before returning", 2)
 	r.Rule("C07/L", "every struct field accessed by two thread classes with a post-start write is protected by a common must-held lock (or is a channel/sync value)", 8)
+	r.Rule("C07/M", "a map field a reader goroutine inserts into is never assigned anything but a fresh map once that goroutine may run", 2)
 	r.Rule("C07/impl-close-all", "Close of each built-in transport releases every closable resource it holds (or finds it nil) before any return", 3)
 	r.Rule("C07/close-reaches-transport", "every return of Channel.Close is preceded by Transport.Close; the timeout edge is forced; the forced path takes no read lock; reads hold the read lock; every driver Close reaches Channel.Close", 6)
 
@@ -201,6 +206,7 @@ func runC07(c *Ctx, r *Report) {
 	checkWorkers(c, r, cl, "C07/K5", true)
 	checkDonePoll(c, r, cl)
 	checkLockset(c, r, cl, "C07/L", nil)
+	checkReaderMaps(c, r, cl)
 	checkCloseReachesTransport(c, r)
 	checkImplCloseAll(c, r)
 	r.Extra["api_roots"] = len(cl.apiRoots)
@@ -634,6 +640,22 @@ func checkDonePoll(c *Ctx, r *Report, cl *classes) {
 	}
 	if n == 0 {
 		r.OK("C07/K6", shortFn(fn)+" forward", c.Pos(fn.Pos()), "the reader does not send on Errs")
+	}
+	// the reader never leaves after a transport read without having polled done: the closer's request
+	// (a goroutine parked in `done <- ...` while the reader sat in a blocking read) is only ever received here
+	rr := reachFrom(fn, readCall, isDonePoll, nil)
+	var exit ssa.Instruction
+	for _, b := range fn.Blocks {
+		for _, in := range b.Instrs {
+			if isReturn(in) && rr.visited[in] && len(b.Preds) > 0 && exit == nil {
+				exit = in
+			}
+		}
+	}
+	if exit != nil {
+		r.Bad("C07/K6", shortFn(fn)+" exit", c.Pos(exit.Pos()), "the reader can return after a transport read (e.g. on EOF from the forced close) without polling done: the goroutine Close parked in `done <- struct{}{}` while the reader was blocked is never received from and outlives the close", rr.witness(c, exit)...)
+	} else {
+		r.OK("C07/K6", shortFn(fn)+" exit", c.Pos(fn.Pos()), "every return after a transport read follows a poll of done")
 	}
 }
 
